@@ -255,7 +255,59 @@ def unrounded_distance_test(ctx, rng):
                              "conversion error %s x unitsPerEm %d = %.4f" % (worst, err or 0.001, upm, tol))
 
 
+def skip_flatten_test(ctx, rng):
+    """flattenComponents together with non-exported glyphs: flattening must look at the glyph set being compiled (where the
+    skipped glyph has been folded into its users and removed); each remaining glyph renders the same with and without
+    flattening"""
+    import ufo2ft
+    from harness.props.c13 import flat_contours, same_rendering
+    from fontTools.ttLib import TTFont
+    for i in range(ctx.budget(10, 60)):
+        desc = gen_component_font(rng, n=rng.randint(5, 9), kinds=("line",), classes=["identity", "scale", "mirror_x"], max_depth=3)
+        by = {g["name"]: g for g in desc["glyphs"]}
+        pure = [g["name"] for g in desc["glyphs"] if g["components"] and not g["contours"]]
+        # X (skipped) <- S (pure composite using X) <- C (composite using S)
+        chain = [(x, sn, c["name"]) for sn in pure for x, _ in by[sn]["components"] for c in desc["glyphs"]
+                 if any(b == sn for b, _ in c["components"]) and c["name"] != x]
+        if chain:
+            skip = [rng.choice(chain)[0]]
+        else:
+            used = sorted({b for g in desc["glyphs"] for b, _ in g["components"]})
+            if not used:
+                continue
+            skip = [rng.choice(used)]
+        lib = ["ufoLib2", "defcon"][i % 2]
+        via_lib = i % 3 == 0
+        if via_lib:
+            desc["lib"] = {"public.skipExportGlyphs": list(skip)}
+        kw = {} if via_lib else {"skipExportGlyphs": list(skip)}
+        case = {"font": jsonable(desc), "lib": lib, "skipExportGlyphs": skip, "given_by": "lib" if via_lib else "argument",
+                "level": "flattenComponents x skipExportGlyphs"}
+        ctx.count(); ctx.klass("flatten x skip" + ("/chain" if chain else "")); ctx.nontriv(("fs", i, ctx.scale))
+        try:
+            fonts = []
+            for fl in (False, True):
+                tt = ufo2ft.compileTTF(build_font(desc, lib), useProductionNames=False, flattenComponents=fl, **kw)
+                b = io.BytesIO(); tt.save(b); fonts.append(TTFont(io.BytesIO(b.getvalue())))
+        except Exception as e:
+            ctx.spec_failure(case, "compileTTF raised %s: %s\n%s" % (type(e).__name__, e, traceback.format_exc()[-1000:]))
+            continue
+        plain, flat = fonts
+        if plain.getGlyphOrder() != flat.getGlyphOrder() or skip[0] in flat.getGlyphOrder():
+            ctx.spec_failure(case, "glyph order with flattening %r, without %r" % (flat.getGlyphOrder(), plain.getGlyphOrder()))
+            continue
+        for n in plain.getGlyphOrder():
+            g = flat["glyf"][n]
+            if g.isComposite() and any(c.glyphName not in flat.getGlyphOrder() or flat["glyf"][c.glyphName].isComposite() for c in g.components):
+                ctx.spec_failure(dict(case, glyph=n), "flattened composite %r still has a nested or dangling reference" % n)
+                break
+            if not same_rendering(flat_contours(plain, n), flat_contours(flat, n), tol=2):
+                ctx.spec_failure(dict(case, glyph=n), "glyph %r renders differently with flattenComponents when %r is not exported" % (n, skip[0]))
+                break
+
+
 def cubic_distance_test(ctx, rng):
+    skip_flatten_test(ctx, rng)
     unrounded_distance_test(ctx, rng)
     import ufo2ft
     from fontTools.ttLib import TTFont
